@@ -216,6 +216,47 @@ impl<T: Elem> Parent<T> {
     }
 }
 
+/// The view a layout describes inside a given allocation.
+pub fn view_of<'a, T>(arr: &'a ArrayD<T>, layout: &Layout) -> ArrayViewD<'a, T> {
+    let mut v = arr.view();
+    for (ax, &(a, b, c)) in layout.slices.iter().enumerate() {
+        v.slice_axis_inplace(Axis(ax), Slice::new(a, Some(b), c));
+    }
+    v.permuted_axes(IxDyn(&layout.perm))
+}
+
+/// Second operand of a two-array routine: its own allocation, or (data section `@`) another
+/// view into the FIRST operand's allocation, so that the two operands alias.
+pub enum Second<T> {
+    Own(Parent<T>),
+    Alias(Layout),
+}
+
+impl<T: Elem> Second<T> {
+    pub fn parse(t: &mut Toks) -> Second<T> {
+        let layout = Layout::parse(t);
+        t.bar();
+        let mut probe = Toks { it: t.it.clone() };
+        if probe.next() == "@" {
+            t.next();
+            return Second::Alias(layout);
+        }
+        let data: Vec<T> = t.vec();
+        assert_eq!(data.len(), layout.parent_len(), "parent buffer length");
+        let arr = ArrayD::from_shape_vec(IxDyn(&layout.pshape), data).expect("parent shape");
+        Second::Own(Parent { arr, layout })
+    }
+    pub fn view<'a>(&'a self, first: &'a Parent<T>) -> ArrayViewD<'a, T> {
+        match self {
+            Second::Own(p) => p.view(),
+            Second::Alias(l) => {
+                assert_eq!(l.pshape, first.layout.pshape, "alias parent shape");
+                view_of(&first.arr, l)
+            }
+        }
+    }
+}
+
 /// Offsets (in elements, relative to the parent's first element) of a 1-D view.
 pub fn offsets_1d<T>(base: *const T, ptr: *const T, len: usize, stride: isize) -> Vec<isize> {
     let off = (ptr as isize - base as isize) / (std::mem::size_of::<T>() as isize);
